@@ -42,7 +42,7 @@ PROPS = {
         "assumptions": [],
     },
     "C06": {
-        "units": [("replacer", r"replace_by|make_edit|get_replaced_range|deref|get_node"), ("source", r"accept_edit"), ("fixer", r"get_replaced_range")],
+        "units": [("replacer", r"replace_by|make_edit|get_replaced_range|deref|get_node"), ("source", r"accept_edit"), ("fixer", r"get_replaced_range"), "rewrite"],
         "kani": [],
         "decided": ["NodeMatch::replace_by: the edit covers exactly the matched node's extent",
                     "NodeMatch::make_edit: (position, position+deleted_length) == the replacer's range, text == the replacer's text",
@@ -77,7 +77,7 @@ PROPS = {
         "assumptions": ["tree_sitter::Point is a plain (row, column) carrier"],
     },
     "C11": {
-        "units": [("strictness", r"match_meta_var|match_leaf_meta_var"), "nth_child"],
+        "units": [("strictness", r"match_meta_var|match_leaf_meta_var"), "nth_child", "rewrite"],
         "kani": [K("config", "numeric_position_exact", "numeric nthChild: no panic, no truncation", complete=True),
                  K("config", "parse_an_b_len4", "parse_an_b: no panic/overflow", bound="strings over {9,1,n,+,-,space}, length <= 4"),
                  K("config", "parse_an_b_len11", "parse_an_b: no overflow on 11-digit numbers", bound="digit strings over {9,1,n}, length <= 11", tier="thorough")],
